@@ -6,7 +6,7 @@ From Coq Require Import Strings.Byte NArith ZArith List.
 From Coq Require Import Strings.String.
 Import ListNotations.
 Local Open Scope list_scope.
-From LLIR Require Import Lib.Bytes Lib.Radix Model.Natsort Model.Assemble Model.Writer Gen.Enums Proofs.EnumProofs Model.IntLit Model.Enc Model.Types Model.TypeString Model.Gep Model.ResultType.
+From LLIR Require Import Lib.Bytes Lib.Radix Model.Natsort Model.Assemble Model.Writer Gen.Enums Proofs.EnumProofs Model.IntLit Model.Enc Model.Types Model.TypeString Model.Gep Model.ResultType Model.Numbering.
 
 Definition byte_of_N_total (n : N) : byte := match Byte.of_N n with Some b => b | None => x00 end.
 (* C19: run the chunks against a writer failing after k bytes: (size, failed?, delivered, calls) *)
@@ -78,6 +78,15 @@ Definition mk_index (h : bool) (v : Z) (l : N) : index := {| has_val := h; val :
 Definition rt_out (o : ResultType.outcome ty) : option ty := match o with ResultType.Ok t => Some t | ResultType.Panic => None end.
 Definition c06_ir (bodies : list (bytes * list ty)) (s : shape) : option ty := rt_out (ir_type (gep_env bodies) s).
 Definition c06_asm (bodies : list (bytes * list ty)) (s : shape) : option ty := rt_out (asm_type (gep_env bodies) s).
+(* C08 *)
+Definition mk_item (n : bool) (id : Z) (v : bool) : item := {| it_named := n; it_id := id; it_value := v |}.
+Definition c08_assign (l : list item) : option (list item) :=
+  match assign_ids l with Numbering.Ok r => Some r | Numbering.Err => None end.
+Definition mk_gent (k : nat) (named : bool) : gent :=
+  {| g_kind := match k with 0 => KGlobal | 1 => KAlias | 2 => KIFunc | _ => KFunc end;
+     g_item := {| it_named := named; it_id := 0%Z; it_value := true |} |}.
+Definition c08_print_after_parse (l : list gent) : bool :=
+  match print_after_parse l with Numbering.Ok _ => true | Numbering.Err => false end.
 Definition sort_ids (l : list Z) : list Z := isort Z.ltb l.
 
 Extraction "model.ml" byte_of_N_total Byte.to_N
@@ -86,4 +95,4 @@ Extraction "model.ml" byte_of_N_total Byte.to_N
   Enc.global_name Enc.local_name Enc.label_name Enc.type_name Enc.comdat_name Enc.metadata_name Enc.escape_ident Enc.escape_string Enc.quote Enc.unescape
   Enc.global_id Enc.local_id Enc.label_id c11_dec_global c11_dec_local c11_dec_label c11_dec_type c11_dec_comdat c11_dec_metadata
   TypeString.ty_string TypeString.equal_go
-  gep_result gep_inst gep_parse gep_expr mk_index c06_ir c06_asm.
+  gep_result gep_inst gep_parse gep_expr mk_index c06_ir c06_asm mk_item c08_assign Numbering.it_id mk_gent c08_print_after_parse.
